@@ -32,39 +32,48 @@ var c14Envs = []struct{ name, val string }{
 // rescanned. ok is false when the literal is outside the compared class
 // (markers not well nested, or an expression the reference does not define).
 func c14Ref(text string, x string) (res string, ok bool) {
+	res, _, ok = c14RefTicks(text, x)
+	return
+}
+
+// c14RefTicks also returns how often tick() is evaluated; the k-th evaluation
+// of tick() yields 6+k, so an expression that is written twice must be
+// evaluated twice (no reuse of an earlier occurrence's text).
+func c14RefTicks(text string, x string) (res string, nticks int, ok bool) {
 	var b strings.Builder
 	rest := text
 	for {
 		i := strings.Index(rest, "{{")
 		if i < 0 {
 			if strings.Contains(rest, "}}") {
-				return "", false
+				return "", 0, false
 			}
 			b.WriteString(rest)
-			return b.String(), true
+			return b.String(), nticks, true
 		}
 		if strings.Contains(rest[:i], "}}") {
-			return "", false
+			return "", 0, false
 		}
 		b.WriteString(rest[:i])
 		rest = rest[i+2:]
 		j := strings.Index(rest, "}}")
 		if j < 0 {
-			return "", false
+			return "", 0, false
 		}
 		code := rest[:j]
 		if strings.Contains(code, "{{") {
-			return "", false
+			return "", 0, false
 		}
 		switch strings.TrimSpace(code) {
 		case "x":
 			b.WriteString(x)
 		case "tick()":
-			b.WriteString("7")
+			nticks++
+			fmt.Fprintf(&b, "%d", 6+nticks)
 		case "1+1":
 			b.WriteString("2")
 		default:
-			return "", false
+			return "", 0, false
 		}
 		rest = rest[j+2:]
 	}
@@ -81,7 +90,7 @@ func c14Check(c *Ctx, srcBody, valBody string, env int, raw bool) {
 	ticks := 0
 	out := evalECAL("res := "+lit, evalOpts{budget: 3000, setup: func(vs parser.Scope, erp *interpreter.ECALRuntimeProvider) {
 		vs.SetValue("x", x)
-		vs.SetValue("tick", &hfunc{func(args []interface{}) (interface{}, error) { ticks++; return float64(7), nil }})
+		vs.SetValue("tick", &hfunc{func(args []interface{}) (interface{}, error) { ticks++; return float64(6 + ticks), nil }})
 	}})
 	if out.panicKey != "" {
 		c.Viol("interpolation-"+out.panicKey, fmt.Sprintf("%s: panic: %s", input, out.panicMsg), input)
@@ -125,8 +134,12 @@ func c14Check(c *Ctx, srcBody, valBody string, env int, raw bool) {
 		c.Viol("data-became-code", fmt.Sprintf("%s: tick() was called %d time(s) but the literal itself contains it %d time(s): %s (result %q)", input, ticks, own, kind, got), input)
 		return
 	}
-	if want, ok := c14Ref(valBody, x); ok {
+	if want, wantTicks, ok := c14RefTicks(valBody, x); ok {
 		c.Nontrivial()
+		if ticks != wantTicks && got == want {
+			c.Viol("expression-not-evaluated-once-per-occurrence", fmt.Sprintf("%s: tick() is written %d time(s) inside {{ }} but was evaluated %d time(s)", input, wantTicks, ticks), input)
+			return
+		}
 		if got != want {
 			k := "one-pass-result-differs"
 			if strings.Contains(x, "{{") || strings.Contains(x, "}}") {
